@@ -1,4 +1,4 @@
-import Pm.Sort2
+import Pm.HLMore
 open Pm
 
 def showOpt : Option Nat → String
@@ -24,8 +24,9 @@ partial def loop (h : IO.FS.Stream) (out : IO.FS.Stream) (hl : Hostlist) : IO Un
     match sortHL hl with
     | .ok hl' => out.putStrLn s!"S {(expand hl').length}"; loop h out hl'
     | .abort => out.putStrLn "S ABORT"; loop h out []
+    | .fuel => out.putStrLn "S FUEL"; loop h out []      -- iteration bound of the sort mirror exhausted: never matches the C side
   | ["R"] => out.putStrLn ("R " ++ String.ofList (rangedString hl)); loop h out hl
-  | ["N", i] => out.putStrLn ("N " ++ (match nth hl i.toNat! with | some n => String.ofList n | none => "(null)")); loop h out hl
+  | ["N", i] => out.putStrLn ("N " ++ (match nthC hl i.toNat! with | some n => String.ofList n | none => "(null)")); loop h out hl
   | ["D", n] =>
     let (hl', k) := deleteHost hl n.toList
     out.putStrLn s!"D {k} {(expand hl').length}"; loop h out hl'
